@@ -4,7 +4,8 @@
    2^32-1 or 2^32-2 - the only values where the 32-bit additions y+1, y+2 inside Rand wrap - by inverting
    the odd multiplier A modulo 2^32 on byte limbs, and emits those that a 24-bit ESI can reach. *)
 EXTENDS Rfc6330, TLC, Json, Integers
-CONSTANTS ScanRows, ScanChunks, ScanChunkSize      \* the tuple-boundary search: rows of Table 2, and X in 0..ScanChunks*ScanChunkSize-1
+CONSTANTS ScanRows, ScanChunks, ScanChunkSize,     \* the tuple-boundary search: rows of Table 2, and X in 0..ScanChunks*ScanChunkSize-1
+          DeepRows, DeepChunks                     \* rows scanned much further (every single threshold value is then hit several times)
 VARIABLE v_case
 vars == <<v_case>>
 
@@ -38,7 +39,8 @@ Thresholds == {DegF[c] : c \in 1..31} \cup {DegF[c] - 1 : c \in 2..31}
 IsEdge(pr, X) == DegV(pr, X) \in Thresholds
 NextScan ==
   \/ /\ v_case.kind = "root"
-     /\ \E ti \in ScanRows, c \in 0..(ScanChunks - 1) : v_case' = [kind |-> "chunk", ti |-> ti, c |-> c]
+     /\ \E ti \in ScanRows \cup DeepRows : \E c \in 0..((IF ti \in DeepRows THEN DeepChunks ELSE ScanChunks) - 1) :
+          v_case' = [kind |-> "chunk", ti |-> ti, c |-> c]
   \/ /\ v_case.kind = "chunk"
      /\ LET pr == ParamTab[v_case.ti] IN
         \E X \in {x \in (v_case.c * ScanChunkSize)..((v_case.c + 1) * ScanChunkSize - 1) : IsEdge(pr, x)} :
